@@ -10,4 +10,22 @@ From OFV Require Import Prng Pchk PchkProofs.
 Theorem pchk_ignores_global_state : forall fuel k r n1 (seed g g' : Z),
   (1 <= seed <= PM_P - 1)%Z -> pchk fuel k r n1 seed g = pchk fuel k r n1 seed g'.
 Proof. exact pchk_ignores_global_state_proof. Qed.
+(* ---- the construction stays inside its tables (PchkBounds.v, PchkBoundsConcrete.v; also part of C07) ----
+   pchk_chk is a copy of the construction whose every read and write of the choice table u, every draw (a bound of 0 is an
+   error: the C would compute rand() with maxv = 0), every of_mod2sparse_find and every insertion fail out of range.  It
+   refines the model unconditionally; with the PRNG generated from of_rand.c, for every configuration inside the accepted
+   limits and every PRNG state at entry it is never out of bounds and returns exactly what the model returns. *)
+From Coq Require Import ZArith.
+From OFV Require Import Prng PchkShape PchkBounds PchkBoundsConcrete.
+From OFV.gen Require Import GenPrng.
+Theorem matrix_construction_never_leaves_its_tables : forall fuel k r n1 seed g0,
+  1 <= k -> 1 <= r -> (1 <= seed <= PM_P - 1)%Z ->
+  (Z.of_nat k <= 2 ^ 24)%Z -> (Z.of_nat r <= 2 ^ 24)%Z -> (Z.of_nat (n1 * k) <= 2 ^ 24)%Z ->
+  pchk_chk rnd of_rfc5170_srand fuel k r n1 seed g0 <> OutOfBounds.
+Proof. exact ldpc_construction_never_out_of_bounds. Qed.
+Theorem accepted_configurations_are_within_that_range : forall k r n1, (Z.of_nat k + Z.of_nat r <= 50000)%Z -> (Z.of_nat n1 <= 255)%Z ->
+  (Z.of_nat k <= 2 ^ 24)%Z /\ (Z.of_nat r <= 2 ^ 24)%Z /\ (Z.of_nat (n1 * k) <= 2 ^ 24)%Z.
+Proof. exact accepted_sizes_in_range. Qed.
+
+Print Assumptions matrix_construction_never_leaves_its_tables.
 Print Assumptions pchk_ignores_global_state.
